@@ -547,10 +547,20 @@ func (c14) Run(e *Env) {
 	// observed outputs per path
 	emitOut := map[string]map[string]any{}
 	var emitOrder []string
+	// Stop variant: what the Emit path still delivers once Stop has been invoked is not judged.
+	// Stop discards the rows that are still queued, nothing says which ones (with a growing input
+	// buffer and several producers a later row can be taken while earlier ones are dropped), and a
+	// row can be evaluated without being delivered — "the earlier rows of the partition" is not
+	// observable from outside any more. The EmitSync path stays fully judged: its calls are
+	// sequential per producer and each one reports whether it was processed.
+	afterStop := map[string]bool{}
 	for _, d := range e.Insts[0].Deliveries {
 		for _, r := range d.Rows {
 			emitOut[rowID(r)] = r
 			emitOrder = append(emitOrder, rowID(r))
+			if si := e.Insts[0].StopInv; si > 0 && d.Start >= si {
+				afterStop[rowID(r)] = true
+			}
 		}
 	}
 	syncOut := map[string]map[string]any{}
@@ -601,6 +611,25 @@ func (c14) Run(e *Env) {
 				}
 				perPartRows[p] = append(perPartRows[p], op.Row)
 			}
+		}
+	}
+	// the EmitSync clients carry the same rows as the Emit clients (generator); a case reshaped by
+	// the minimiser may not — then only the Emit path is judged
+	syncSym := true
+	for ci := 0; ci < nEmitClients && nEmitClients+ci < len(e.C.Clients); ci++ {
+		var a, b []string
+		for _, op := range e.C.Clients[ci] {
+			if op.K == "emit" {
+				a = append(a, rowID(op.Row))
+			}
+		}
+		for _, op := range e.C.Clients[nEmitClients+ci] {
+			if op.K == "emitsync" {
+				b = append(b, rowID(op.Row))
+			}
+		}
+		if fmt.Sprint(a) != fmt.Sprint(b) {
+			syncSym = false
 		}
 	}
 	if !part && nEmitClients > 1 {
@@ -671,10 +700,16 @@ func (c14) Run(e *Env) {
 				if path == "emitsync" {
 					has = syncHas[id]
 				}
+				if path == "emitsync" && !syncSym {
+					continue
+				}
+				if stopMid && path == "emit" && (afterStop[id] || !has) {
+					continue // delivered while Stop ran, or not at all: not judged (see above)
+				}
 				if stopMid && pass {
 					produced[path+"/"+id] = has
 					if !has {
-						continue // not processed any more (or its result not delivered) because of Stop
+						continue // not processed any more because of Stop
 					}
 				}
 				if has != pass {
@@ -714,7 +749,7 @@ func (c14) Run(e *Env) {
 			}
 			_ = ccChanged
 			// both paths must agree with each other as well
-			if a, b := emitOut[id], syncOut[id]; a != nil && b != nil && !deepEqual(a, b) {
+			if a, b := emitOut[id], syncOut[id]; a != nil && b != nil && !afterStop[id] && syncSym && !deepEqual(a, b) {
 				e.Violate("C14/sync-async-disagree", "", "row %s: Emit path %s, EmitSync path %s", id, canon(a), canon(b))
 			}
 		}
@@ -723,6 +758,9 @@ func (c14) Run(e *Env) {
 		// the rows of one producer that still produced a result are a prefix of its rows
 		for ci := 0; ci < nEmitClients; ci++ {
 			for _, path := range []string{"emit", "emitsync"} {
+				if path == "emitsync" && !syncSym {
+					continue
+				}
 				gap := ""
 				for _, op := range e.C.Clients[ci] {
 					if op.K != "emit" {
